@@ -137,7 +137,7 @@ func Instrument(root string, goBinDir string) (*Result, error) {
 				return true
 			})
 			astutil.AddNamedImport(p.Fset, f, "simrt", "simrt")
-			for _, imp := range []string{"os", "os/signal"} {
+			for _, imp := range []string{"os", "os/signal", "sync"} {
 				if !astutil.UsesImport(f, imp) {
 					astutil.DeleteImport(p.Fset, f, imp)
 				}
@@ -288,6 +288,10 @@ func (in *instr) replaceSeams() {
 		}
 		path := pn.Imported().Path()
 		switch {
+		case path == "sync" && se.Sel.Name == "Pool":
+			// sync.Pool hands back any item or none: owned by the simulator (simrt.Pool)
+			in.site(se.Pos(), "sync.Pool")
+			c.Replace(sel("simrt", "Pool"))
 		case path == "os/signal" && se.Sel.Name == "Notify":
 			in.site(se.Pos(), "signal")
 			c.Replace(sel("simrt", "SignalNotify"))
